@@ -109,7 +109,7 @@ Optimizer::Optimizer(Song& song, int verbose)
 	auto& track_map = song.get_track_map();
 
 	auto it = track_map.rbegin();
-	if(it != track_map.rend() && it->first > sub_id)
+	if(it != track_map.rend() && it->first >= sub_id)
 	{
 		sub_id = it->first + 1;
 	}
